@@ -32,7 +32,7 @@ def run(out: common.Outcome):
         out, "C16", [("nocrash", 0.3), ("crash", 0.7)], ["command_stream", "steal_protocol", "internal_error"],
         nontrivial=lambda r: len(r["cfg"]["coll"]) >= 2,
         rule="all modes; regular-language monitor over every down-wire (nothing after shutdown, at most one shutdown, valid indices, no index outstanding on two live workers, steals only of booked tests); non-trivial = at least two tests",
-        modes=None, extra_jobs=written_off_jobs)
+        modes=None, extra_jobs=written_off_jobs, extra_corr=system_common.ctl_extra(['command_stream', 'internal_error']))
 
 
 replay = system_common.replay
